@@ -129,6 +129,7 @@ func (w *world) measure(blk *block.Block, of *offer, tipIdx int) (attrs, error) 
 }
 
 type jobResult struct {
+	viol     []string // direct verdicts of scripted probes (class of the violated expectation)
 	events   []map[string]any
 	skipped  string
 	infra    string
@@ -210,6 +211,56 @@ func (w *world) runCase(id string, c *caseIn, mid int) (jr jobResult) {
 	if err != nil {
 		jr.infra = err.Error()
 		return
+	}
+	// every third header offer is preceded by a probe: a headers message whose FIRST element sits at the node's current
+	// header height but is not the header the node has there (made up, never signed), followed by a header linked to it and
+	// signed by the validators the real chain designates - the batch continues a chain the node does not have and must be
+	// refused without a trace
+	if c.Case.Via == "header" && c.seed%3 == 0 {
+		hh := int(n.bc.HeaderHeight())
+		if hh >= 1 && hh+1 < len(w.blocks) {
+			f := clone(w.blocks[hh])
+			f.Timestamp++
+			f.Nonce ^= 0x5a5a
+			g := clone(w.blocks[hh+1])
+			g.PrevHash = f.Hash()
+			seal(g, w.signer[hh+1], w.magic)
+			rf, e1 := wire(f)
+			rg, e2 := wire(g)
+			if e1 == nil && e2 == nil {
+				bf, e1 := unwire(rf, w.srih)
+				bg, e2 := unwire(rg, w.srih)
+				if e1 == nil && e2 == nil {
+					b0, err := n.snapshot()
+					if err != nil {
+						jr.infra = err.Error()
+						return
+					}
+					var perr error
+					func() {
+						defer func() {
+							if p := recover(); p != nil {
+								jr.panicked = fmt.Sprint(p)
+							}
+						}()
+						perr = n.bc.AddHeaders(&bf.Header, &bg.Header)
+					}()
+					if jr.panicked != "" {
+						return
+					}
+					a0, err := n.snapshot()
+					if err != nil {
+						jr.infra = err.Error()
+						return
+					}
+					if perr == nil || a0.hdrH != b0.hdrH || len(ledDiff(b0, a0)) > 0 || len(dbDiff(b0.db, a0.db, util.Uint256{})) > 0 {
+						jr.viol = append(jr.viol, fmt.Sprintf("overlapping-fake-parent: AddHeaders([made-up header %d, header %d linked to it]) err=%v header height %d -> %d ledger diff %v db diff %v",
+							hh, hh+1, perr, b0.hdrH, a0.hdrH, ledDiff(b0, a0), dbDiff(b0.db, a0.db, util.Uint256{})))
+						return
+					}
+				}
+			}
+		}
 	}
 	before, err := n.snapshot()
 	if err != nil {
@@ -427,6 +478,14 @@ func TestDriver(t *testing.T) {
 							fmt.Sprintf("panic escaped AddBlock/AddHeaders: %s", o.panicked), map[string]any{"case": c.Case, "seed": vh.Seed(), "world": w.id})
 						continue
 					}
+					for _, v := range o.viol {
+						res.Violate(map[string]any{"kind": "RejectKeepsLedger", "via": "header", "class": "overlapping-fake-parent"}, v,
+							map[string]any{"case": c.Case, "seed": vh.Seed(), "world": w.id})
+					}
+					if len(o.viol) > 0 {
+						continue
+					}
+					res.Inc("overlap_probes", 0)
 					if o.skipped != "" {
 						res.Inc("cases_skipped", 1)
 						res.Inc("skipped_"+c.Case.Kind, 1)
